@@ -340,15 +340,27 @@ func RecordTokenization(duration time.Duration, querySize int, err error) {
 	// Record query size
 	atomic.AddInt64(&globalMetrics.totalQueryBytes, int64(querySize))
 
-	// Update min/max query sizes
-	currentMin := atomic.LoadInt64(&globalMetrics.minQuerySize)
-	if currentMin == -1 || int64(querySize) < currentMin {
-		atomic.StoreInt64(&globalMetrics.minQuerySize, int64(querySize))
+	// Update min/max query sizes. A plain load-compare-store loses the true
+	// extreme when two recordings overlap, so retry with compare-and-swap until
+	// this value is either installed or no longer an improvement.
+	size := int64(querySize)
+	for {
+		currentMin := atomic.LoadInt64(&globalMetrics.minQuerySize)
+		if currentMin != -1 && size >= currentMin {
+			break
+		}
+		if atomic.CompareAndSwapInt64(&globalMetrics.minQuerySize, currentMin, size) {
+			break
+		}
 	}
-
-	currentMax := atomic.LoadInt64(&globalMetrics.maxQuerySize)
-	if int64(querySize) > currentMax {
-		atomic.StoreInt64(&globalMetrics.maxQuerySize, int64(querySize))
+	for {
+		currentMax := atomic.LoadInt64(&globalMetrics.maxQuerySize)
+		if size <= currentMax {
+			break
+		}
+		if atomic.CompareAndSwapInt64(&globalMetrics.maxQuerySize, currentMax, size) {
+			break
+		}
 	}
 
 	// Record errors
